@@ -83,10 +83,26 @@ fn child_body(order_shutdown_first: bool, sig: i32, status: i32, hist: &[Op], mo
     let weak = Arc::downgrade(&strong);
     let mut strong = Some(strong);
     let uflag = Arc::new(AtomicUsize::new(0));
+    if status % 4 == 2 {
+        // the signal already had a handler of the application's, installed one-shot, before the library took it over
+        extern "C" fn prev(_: libc::c_int) {}
+        unsafe {
+            let mut sa: libc::sigaction = std::mem::zeroed();
+            sa.sa_sigaction = prev as usize;
+            sa.sa_flags = libc::SA_RESETHAND;
+            libc::sigaction(sig, &sa, std::ptr::null_mut());
+        }
+    }
     if order_shutdown_first {
+        // (with an odd status:) an unrelated action was registered on the signal before and is removed
+        // again after the two - registration order is what counts, not what came and went around them
+        let unrelated = if status % 2 == 1 { Some(unsafe { signal_hook_registry::register(sig, || ()) }.unwrap()) } else { None };
         let c = if moved { strong.take().unwrap() } else { strong.as_ref().unwrap().clone() };
         signal_hook::flag::register_conditional_shutdown(sig, status, c).unwrap();
         signal_hook::flag::register(sig, weak.upgrade().unwrap()).unwrap();
+        if let Some(id) = unrelated {
+            signal_hook_registry::unregister(id);
+        }
     } else {
         signal_hook::flag::register(sig, weak.upgrade().unwrap()).unwrap();
         let c = if moved { strong.take().unwrap() } else { strong.as_ref().unwrap().clone() };
